@@ -37,6 +37,74 @@ def runC12 (ops : F64Ops F) (cmd : String) (args : List (Num F)) : Option (Res (
       | _ => .exc "arity")
   | _ => none
 
+/-! ### `range` on floats (`rangeBuiltinNum[float64]`, pkg/eval/builtin_fn_num.go)
+
+C11's model stops at `range` with a float among start/end/step
+(`unmodelled-range-float`); this is that branch.  The comparisons of the float
+type are a second parameter (`F64Ops` has none). -/
+
+structure FCmp (F : Type) where
+  lt : F → F → Bool
+  le : F → F → Bool
+
+/-- `for cur := start; cur < end; cur += step { put cur; if cur+step <= cur { break } }` -/
+def rangeFloatUp (ops : F64Ops F) (c : FCmp F) (end_ step : F) : Nat → F → Res (List F)
+  | 0, _ => .exc "FUEL"
+  | fuel + 1, cur =>
+    if c.lt cur end_ then
+      if c.le (ops.add cur step) cur then .ok [cur]
+      else resMap (cur :: ·) (rangeFloatUp ops c end_ step fuel (ops.add cur step))
+    else .ok []
+
+/-- `for cur := start; cur > end; cur += step { put cur; if cur+step >= cur { break } }` -/
+def rangeFloatDown (ops : F64Ops F) (c : FCmp F) (end_ step : F) : Nat → F → Res (List F)
+  | 0, _ => .exc "FUEL"
+  | fuel + 1, cur =>
+    if c.lt end_ cur then
+      if c.le cur (ops.add cur step) then .ok [cur]
+      else resMap (cur :: ·) (rangeFloatDown ops c end_ step fuel (ops.add cur step))
+    else .ok []
+
+/-- `rangeBuiltinNum[float64]`: the constants `0`, `1`, `-1` of type `T` are
+`float64(0)`, `float64(1)`, `float64(-1)`.  With a NaN among start/end the
+first comparison fails and the descending loop runs (zero times). -/
+def rangeBuiltinFloat (ops : F64Ops F) (c : FCmp F) (fuel : Nat) (nums : List F) : Res (List F) :=
+  match nums with
+  | start :: end_ :: tl =>
+    if c.le start end_ then
+      match tl with
+      | [] => rangeFloatUp ops c end_ (ops.ofInt64 1) fuel start
+      | [step] =>
+        if c.le step (ops.ofInt64 0) then .exc "step-positive"
+        else rangeFloatUp ops c end_ step fuel start
+      | _ => .panic "unreachable"
+    else
+      match tl with
+      | [] => rangeFloatDown ops c end_ (ops.ofInt64 (-1)) fuel start
+      | [step] =>
+        if c.le (ops.ofInt64 0) step then .exc "step-negative"
+        else rangeFloatDown ops c end_ step fuel start
+      | _ => .panic "unreachable"
+  | _ => .panic "index out of range"
+
+/-- `rangeFn` including the float branch (everything else is C11's `rangeFn`). -/
+def rangeC12 (ops : F64Ops F) (c : FCmp F) (fuel : Nat) (args : List (Num F)) (step : Option (Num F)) :
+    Res (List (Num F)) :=
+  let raw? : Option (List (Num F)) :=
+    match args with
+    | [e] => some [.int 0, e]
+    | [s, e] => some [s, e]
+    | _ => none
+  match raw? with
+  | none => rangeFn ops args step
+  | some raw =>
+    let raw := match step with
+      | some s => raw ++ [s]
+      | none => raw
+    match unifyNums ops raw .int with
+    | .ok (.flts l) => resMap (·.map fun f => fromGo (.flt f)) (rangeBuiltinFloat ops c fuel l)
+    | _ => rangeFn ops args step
+
 /-! ### The driver's instance -/
 
 def fOfBits (b : Nat) : Float := Float.ofBits (UInt64.ofNat b)
@@ -91,5 +159,10 @@ def hwOps : F64Ops Float where
   ofRat q := fOfBits (B64.rne q)
   inf s := if 0 ≤ s then fOfBits B64.infMag else fOfBits (B64.signBit + B64.infMag)
   toRat f := B64.toRat f.toBits.toNat
+
+
+def hwCmp : FCmp Float where
+  lt a b := decide (a < b)
+  le a b := decide (a ≤ b)
 
 end C12
